@@ -144,6 +144,15 @@ CHECKS = {
             'Expressions whose evaluation RSOME does not support (raises) are counted, not failed; assign() on slices of random '
             'variables and E(...) evaluation are outside the generated domain.',
             'DESIGN.md section 4 / C12'),
+    'C11': ('property-based differential testing across solver interfaces with an independent formula checker and brute-force MILP '
+            'enumeration; feasible, infeasible and unbounded programs by construction',
+            'Generated-input search over LP/MILP/SOCP/MISOCP/exp-cone programs solved through every installed interface that supports '
+            'them (default HiGHS, Gurobi, OR-Tools GLOP/SCIP, ECOS/ECOS_BB): equal optima, returned vectors checked against the '
+            'compiled program (rows, senses, bounds, integrality, cone membership), and no fabricated solution on infeasible/'
+            'unbounded programs (NaN objective, x None, get() raises RuntimeError). Sampling, not proof.',
+            'CLP/CPLEX/Mosek/COPT interfaces cannot be exercised (solvers not installed); ECOS_BB only one-sided; ECOS numerical '
+            'failures on feasible programs skipped; exp-cone programs have a single interface (vector check only).',
+            'DESIGN.md section 4 / C11'),
 }
 
 NOT_YET = 'check not built yet in this round (see DESIGN.md section 4 for the planned generator and oracle)'
